@@ -32,7 +32,8 @@ EXPLANATION = (
     "advances by exactly the transferred length and that no buffer pointer survives a resize. A structural "
     "abstraction of every stream operator selected by the compiler's overload resolution to a wire signature "
     "(length fields with their width, raw object images, data blocks, repeats) is paired writer against reader "
-    "for arithmetic types, structs, strings, vectors (nested, of strings) and all array wrapper types. "
+    "for arithmetic types, structs, strings, vectors (nested, of strings) and all array wrapper types; the operator "
+    "selected for a WriteSizeCalculator must be the same or account the same byte count; no member caches buffer state. "
     "Not decided: value equality after a round trip, wrap-around of cursor+size near SIZE_MAX.")
 
 NET = 'rkcommon::networking::'
